@@ -5,7 +5,8 @@
    includes are walked first, then it is merged (post-order), and its name is recorded.  The
    merge order itself is compared on every run with an independent reading of the property
    through the trace parameter. *)
-From RV Require Import Model.Node Proofs.WfFacts Proofs.NamesFacts Proofs.NodeFacts Proofs.WalkFold Proofs.NodeTotal.
+From RV Require Import Model.Node Spec.DeepMerge Proofs.WfFacts Proofs.NamesFacts Proofs.NodeFacts Proofs.WalkFold Proofs.NodeTotal
+     Proofs.Refinement Proofs.NodeRefines.
 
 (** Each class is merged the first time it is reached and never again: the record of merged
     classes never holds a name twice. *)
@@ -108,6 +109,22 @@ Theorem C01_node_render_always_returns :
                      ((exists v, r = Ok v) \/ (exists e, r = Err e)).
 Proof. exact node_render_total. Qed.
 Eval cbv in "ASSUMPTIONS-OF C01_node_render_always_returns"%string. Print Assumptions C01_node_render_always_returns.
+
+(** With C02: the rendered parameters of a node are the render of a stack of YAML layers -- the
+    parameter documents of the recorded classes in the order of the record (each once,
+    post-order), the node's metadata, the node's own parameter document last -- and, when those
+    documents are clean and reference-free, they are the deep merge (Spec/DeepMerge.v) of that
+    stack, up to the constant/override flags. *)
+Theorem C01_rendered_parameters_are_the_deep_merge_of_the_walk :
+  forall fi cfg tbl f n ndoc loc meta rc r,
+    node_of_yaml loc ndoc = Ok n -> as_reclass cfg meta = Ok rc ->
+    node_render f fi cfg tbl n meta = Ok r ->
+    exists seen docs ry,
+      NoDup seen /\ Forall2 (class_params cfg tbl) seen docs /\ reclass_doc cfg meta = Some ry /\
+      (Forall layer_ok (docs ++ [ry; params_doc ndoc]) ->
+       forall g v, deep_merge (S g) (docs ++ [ry; params_doc ndoc]) = SOk v -> unflag (VMap (n_params r)) = v).
+Proof. exact node_params_are_the_deep_merge. Qed.
+Eval cbv in "ASSUMPTIONS-OF C01_rendered_parameters_are_the_deep_merge_of_the_walk"%string. Print Assumptions C01_rendered_parameters_are_the_deep_merge_of_the_walk.
 
 (** Non-vacuity: a diamond with a reference-bearing include; the class list and the trace show
     post-order, once, node last. *)
